@@ -2,7 +2,7 @@ INIT Init
 NEXT Next
 CONSTANTS Half = 6
           MaxTr = 3
-          WHalf = 12
+          WHalf = 10
           WMaxTr = 2
           MaxOff = 2
 INVARIANT SpecSane
